@@ -403,9 +403,11 @@ class Worker:
                         untrace()
                     if how in ("stop", "quit"):
                         return how
-                    self.reply("done" if how == "normal" else "exitfailed")
+                    # "swallowed": the body raised Boom but the `with` statement completed without an exception
+                    self.reply("done" if how == "normal" else "swallowed")
                 except Boom:
-                    self.reply("done" if entered else "exitfailed")
+                    # the body's exception propagated out of the `with` statement (after the finally clause)
+                    self.reply("reraised" if entered else "exitfailed")
                 except HarnessStuck:
                     raise
                 except Exception as e:  # noqa
@@ -527,7 +529,8 @@ def drive_micro(m, scenario):
     and opB (thread 2) run concurrently under a line-granular schedule.  Returns (resA, resB, obs, post_steps, lines)."""
     setup, opA, opB, post, schedule = scenario[:5]
     opcodes = len(scenario) > 5 and scenario[5] == "opcode"
-    nthreads = 4
+    conc = [opA, opB] + ([scenario[6]] if len(scenario) > 6 else [])     # a third concurrent call (thread 3) is optional
+    nthreads = len(conc) + 2                  # main, the actors, one passive thread without selection
     workers = {}
     for t in range(1, nthreads):
         w = Worker(m, t)
@@ -551,12 +554,12 @@ def drive_micro(m, scenario):
     try:
         for op in setup:
             atomic(op)
-        st = Stepper([opA[1], opB[1]], traced_files(), opcodes)
-        for op in (opA, opB):
+        st = Stepper([op[1] for op in conc], traced_files(), opcodes)
+        for op in conc:
             workers[op[1]].q.put(cmd_of(op, st))
         st.run(schedule)
         out = []
-        for op in (opA, opB):
+        for op in conc:
             try:
                 res = workers[op[1]].r.get(timeout=TIMEOUT)
             except queue.Empty:
@@ -569,7 +572,7 @@ def drive_micro(m, scenario):
         for op in post:
             res, own = atomic(op)
             steps.append((res, observe_all(op[1], own)))
-        return out[0], out[1], obs, steps, st.lines
+        return (out[0], out[1], obs, steps, st.lines) + tuple(out[2:])
     finally:
         for w in workers.values():
             w.q.put(("stop",))
@@ -578,7 +581,12 @@ def drive_micro(m, scenario):
                 w.thread.join(timeout=TIMEOUT)
 
 
-def random_scenario(rng, m):
+def random_scenario3(rng, m):
+    """three concurrent calls (threads 1, 2, 3): like random_scenario with a third actor"""
+    return random_scenario(rng, m, third=True)
+
+
+def random_scenario(rng, m, third=False):
     """set-up (0-3 valid operations of threads 1-3), one operation each for threads 1 and 2, the exits that close
     what is open afterwards, a line- or bytecode-granular schedule"""
     M = Mgr.get(m)
@@ -588,7 +596,7 @@ def random_scenario(rng, m):
     setup = []
     for _ in range(rng.choice([0, 1, 1, 2, 2, 3])):
         t = rng.choice([1, 2, 3])
-        kind = rng.choice(["set", "enter"]) if t != 3 else "set"
+        kind = rng.choice(["set", "enter"]) if (t != 3 or third) else "set"
         setup.append((kind, t, m, rng.choice(valid), rng.random() < 0.6))
         if kind == "enter":
             depth[t] += 1
@@ -604,24 +612,32 @@ def random_scenario(rng, m):
             depth[t] += 1
         return (kind, t, m, s, rng.random() < 0.4)
     opA, opB = one(1), one(2)
+    opC = one(3) if third else None
+    actors = [1, 2, 3] if third else [1, 2]
     post = []
-    order = [t for t in (1, 2) for _ in range(depth[t])]
+    order = [t for t in actors for _ in range(depth[t])]
     rng.shuffle(order)
     for t in order:
         post.append(("exit", t, m, rng.random() < 0.3))
     style = rng.random()
     gran = "opcode" if rng.random() < 0.5 else "line"
     k, n = (14, 40) if gran == "line" else (70, 200)
-    if style < 0.5:       # one thread runs k steps, the other completes, the first resumes
-        a, b = rng.choice([(1, 2), (2, 1)])
-        schedule = [a] * rng.randint(0, k) + [b] * n
+    if style < 0.5:       # one thread runs k steps, the other(s) complete (the second one also stopped midway), the first resumes
+        perm = actors[:]
+        rng.shuffle(perm)
+        schedule = [perm[0]] * rng.randint(0, k)
+        if third:
+            schedule += [perm[1]] * rng.randint(0, k) + [perm[2]] * n + [perm[1]] * n
+        else:
+            schedule += [perm[1]] * n
     elif style < 0.75 or gran == "line":
-        schedule = [rng.choice([1, 2]) for _ in range(n)]
+        schedule = [rng.choice(actors) for _ in range(n)]
     else:                 # bursts
         schedule = []
         while len(schedule) < n:
-            schedule += [rng.choice([1, 2])] * rng.randint(1, 25)
-    return (tuple(setup), opA, opB, tuple(post), tuple(schedule), gran)
+            schedule += [rng.choice(actors)] * rng.randint(1, 25)
+    sc = (tuple(setup), opA, opB, tuple(post), tuple(schedule), gran)
+    return sc + (opC,) if third else sc
 
 
 def systematic_scenarios(m):
@@ -650,11 +666,19 @@ def op_digits(op):
 def encode_micro(m, scenario, result):
     """digit stream decoded by Corr/C17.v `decode_m` (leading digit 3)"""
     setup, opA, opB, post, schedule = scenario[:5]
-    resA, resB, obs, steps, _ = result
-    ds = [3, m, 4, 1, len(setup)]
-    for op in setup:
-        ds += op_digits(op)
-    ds += op_digits(opA) + [OUTCOME.get(resA, 3)] + op_digits(opB) + [OUTCOME.get(resB, 3)]
+    resA, resB, obs, steps = result[:4]
+    if len(scenario) > 6:                       # three concurrent calls: leading digit 5, decoded by decode_mN
+        ds = [5, m, 5, 1, len(setup)]
+        for op in setup:
+            ds += op_digits(op)
+        ds += [3]
+        for op, res in ((opA, resA), (opB, resB), (scenario[6], result[5])):
+            ds += op_digits(op) + [OUTCOME.get(res, 3)]
+    else:
+        ds = [3, m, 4, 1, len(setup)]
+        for op in setup:
+            ds += op_digits(op)
+        ds += op_digits(opA) + [OUTCOME.get(resA, 3)] + op_digits(opB) + [OUTCOME.get(resB, 3)]
     ds += seen_digits(obs) + [len(post)]
     for op, (res, o) in zip(post, steps):
         ds += op_digits(op) + [OUTCOME.get(res, 3)] + seen_digits(o)
@@ -666,7 +690,7 @@ def predicates_micro(m, scenario, result):
     """what can be said without the model: query / dispatch consistency in every observation, and the follow-up
     (atomic) exits succeed"""
     M = Mgr.get(m)
-    resA, resB, obs, steps, _ = result
+    resA, resB, obs, steps = result[:4]
     fails = []
     for i, ob in [(-1, obs)] + [(j, o) for j, (_, o) in enumerate(steps)]:
         for t, per in enumerate(ob):
@@ -675,19 +699,20 @@ def predicates_micro(m, scenario, result):
             if o[2] or (o[1] is None and o[0] not in M.stock) or (o[1] is not None and nm != o[0]):
                 fails.append(("C17_observe", i, f"thread {t}: get_backend() code {o[0]} vs executing object {o[1]} / routes {o[2]} after concurrent calls"))
     for j, (res, _) in enumerate(steps):
-        if res != "done":
-            fails.append(("C17_exit_succeeds", j, f"follow-up exit ended abnormally: {res}"))
+        if res != ("reraised" if scenario[3][j][3] else "done"):
+            fails.append(("C17_exit_succeeds", j, f"follow-up exit ({'exception' if scenario[3][j][3] else 'normal'}) ended with {res!r}"))
     # C17_selected_is_current holds in every order of blocks: a thread's own selection is private to it, so after
     # both calls have returned each caller observes what IT selected (no other operation of that thread in between)
     setup, opA, opB = scenario[0], scenario[1], scenario[2]
-    for op, res in ((opA, resA), (opB, resB)):
+    calls = [(opA, resA), (opB, resB)] + ([(scenario[6], result[5])] if len(scenario) > 6 else [])
+    for op, res in calls:
         if op[0] in ("set", "enter") and res == "done" and M.sel_valid(op[3]):
             tok = ("n", op[3][1]) if op[3][0] == "n" else ("o", op[3][1])
             o = obs[op[1]][m]
             ok = o[0] == M.token_name(tok) and (o[1] == tok or (o[1] is None and tok[0] == "n" and tok[1] in M.stock))
             if not ok:
-                fails.append(("C17_selected_is_current", -1, f"thread {op[1]} selected {tok} ({op[0]}) while thread "
-                              f"{(opB if op is opA else opA)[1]} ran {(opB if op is opA else opA)[0]} concurrently, and observes {o[:2]} afterwards"))
+                fails.append(("C17_selected_is_current", -1, f"thread {op[1]} selected {tok} ({op[0]}) while "
+                              f"{[(o2[1], o2[0]) for o2, _ in calls if o2 is not op]} (thread, call) ran concurrently, and observes {o[:2]} afterwards"))
         if op[0] in ("set", "enter") and (res == "done") != M.sel_valid(op[3]):
             fails.append(("C17_rejection", -1, f"concurrent {op[0]} of selector {op[3]} by thread {op[1]} ended with {res}"))
     return fails
@@ -827,19 +852,21 @@ def source_programs(manager_cls):
                     raise Unsupported("try body " + ast.unparse(st.body[0])[:60])
                 enter += [7 if local else 6, 10]
 
-                def restore(stmts):
+                def restore(stmts, last):
                     acts = [8]
                     for s2 in stmts:
-                        if isinstance(s2, ast.Raise):
+                        if isinstance(s2, (ast.Raise, ast.Pass)):
                             continue
                         fl2 = _set_call(s2, saved)
                         if fl2 is None:
                             raise Unsupported("exit: " + ast.unparse(s2)[:60])
                         acts += set_program(f_set, _flag_value(fl2, local), "backend", True)
-                    return acts + [10]
-                exit_n = restore(list(st.orelse) + list(st.finalbody))
+                    return acts + [last]
+                exit_n = restore(list(st.orelse) + list(st.finalbody), 10)
                 hb = list(st.handlers[0].body) if st.handlers else []
-                exit_x = restore(hb + list(st.finalbody))
+                # the body's exception propagates (act 11) unless an except clause ends without re-raising it
+                propagates = (not st.handlers) or any(isinstance(x, ast.Raise) and x.exc is None for x in hb)
+                exit_x = restore(hb + list(st.finalbody), 11 if propagates else 10)
                 continue
             raise Unsupported("backend_context: " + ast.unparse(st)[:60])
         if saved is None or exit_n is None:
@@ -943,7 +970,7 @@ def op_lit(op):
     return f"({m}, Exit_ {op[1]} {C.boolc(op[3])})"
 
 
-OUTCOME = {"done": 0, "rejected": 1, "exitfailed": 2, "noctx": 3}
+OUTCOME = {"done": 0, "rejected": 1, "exitfailed": 2, "noctx": 3, "reraised": 4}
 SELKIND = {"n": 0, "o": 1, "f": 2}
 
 
@@ -1066,8 +1093,10 @@ def predicates_one(M, nthreads, history, result):
                 prev = obs
                 continue          # not an operation of the implementation (generator never issues it)
             before, local, own_before, _ = stack[t].pop()
-            if res != "done":
-                fails.append(("C17_exit_succeeds", i, f"leaving the context of thread {t} ({'exception' if op[3] else 'normal'}) ended abnormally: {res}"))
+            if res != ("reraised" if op[3] else "done"):
+                fails.append(("C17_exit_succeeds" if res == "exitfailed" else "C17_exit_by_exception_same_restore", i,
+                              f"leaving the context of thread {t} ({'by an exception of the body' if op[3] else 'normally'}) ended with {res!r}, "
+                              f"expected {'the exception to propagate after the restore' if op[3] else 'normal completion'}"))
             if not same(obs[t], before):      # C17_restore
                 fails.append(("C17_restore", i, f"thread {t} observed {before[:2]} before entering and {obs[t][:2]} after leaving the context ({'exception' if op[3] else 'normal'} exit)"))
             # the restore is an effective selection of the saved backend with the context's flag
@@ -1157,7 +1186,7 @@ def _micro_job(m, scenarios):
         nlines += r[4]
         fails = predicates_micro(m, sc, r)
         out.append((pack(encode_micro(m, sc, r)), fails[0] if fails else None,
-                    [f"{'tenalg' if m else 'backend'}.concurrent({sc[5] if len(sc) > 5 else 'line'}) {sc[1][0]}|{sc[2][0]}:{r[0]}|{r[1]}"]))
+                    [f"{'tenalg' if m else 'backend'}.concurrent({sc[5] if len(sc) > 5 else 'line'}) {sc[1][0]}|{sc[2][0]}{'|' + sc[6][0] if len(sc) > 6 else ''}:{r[0]}|{r[1]}{'|' + r[5] if len(sc) > 6 else ''}"]))
     for M in Ms:
         M.reset()
     return out, None
@@ -1217,6 +1246,7 @@ def make_groups(tier, rng):
     for m in (0, 1):
         groups.append((3 + m, False, 4, [random_scenario(rng, m) for _ in range(300 if quick else 4000)], "concurrent-pair-schedules"))
         groups.append((3 + m, False, 4, systematic_scenarios(m), "concurrent-pair-bytecode-sweep"))
+        groups.append((3 + m, False, 5, [random_scenario3(rng, m) for _ in range(150 if quick else 2000)], "concurrent-triple-schedules"))
     return groups
 
 
@@ -1244,12 +1274,14 @@ def hist_from_json(j):
 def scenario_to_json(sc):
     setup, opA, opB, post, schedule = sc[:5]
     return {"setup": hist_to_json(setup), "a": hist_to_json([opA])[0], "b": hist_to_json([opB])[0],
-            "post": hist_to_json(post), "schedule": list(schedule), "granularity": sc[5] if len(sc) > 5 else "line"}
+            "post": hist_to_json(post), "schedule": list(schedule), "granularity": sc[5] if len(sc) > 5 else "line",
+            "c": hist_to_json([sc[6]])[0] if len(sc) > 6 else None}
 
 
 def scenario_from_json(j):
     return (hist_from_json(j["setup"]), hist_from_json([j["a"]])[0], hist_from_json([j["b"]])[0],
-            hist_from_json(j["post"]), tuple(int(x) for x in j["schedule"]), j.get("granularity", "line"))
+            hist_from_json(j["post"]), tuple(int(x) for x in j["schedule"]), j.get("granularity", "line")) \
+        + ((hist_from_json([j["c"]])[0],) if j.get("c") else ())
 
 
 ENTRY = {0: "tensorly.set_backend/backend_context", 1: "tensorly.tenalg.set_backend/backend_context",
@@ -1369,7 +1401,7 @@ def run(chk):
                        "three threads incl. main, every thread observing both managers. Concurrent pairs: two calls (set / enter / exit) of threads 1 and 2 "
                        "interleaved at source-line granularity or (every second scenario) at BYTECODE granularity (f_trace_opcodes) by sys.settrace turn taking "
                        "(300 random scenario x schedule per manager, thorough 4000; plus a systematic sweep: 4 canonical pairs of non-local calls x one thread "
-                       "stopped after k = 0..59 bytecodes), "
+                       "stopped after k = 0..59 bytecodes; plus 150 (thorough 2000) scenarios of THREE concurrent calls), "
                        "outcome compared with the set of outcomes of all sequential orders of their blocks (conclusion of C17_micro_atomic). After EVERY operation EVERY thread reports get_backend() and the identity "
                        "of the object executing a dispatched call. Source programs: the acts of set_backend / backend_context / current_backend are extracted from the "
                        "current source (ast) for both manager classes and checked in Coq (effect-point discipline, block equivalence with the model's programs "
